@@ -684,21 +684,22 @@ def _reports_after(s, fact_text):
 
 
 def _returned_entry(s, name):
-    """Rendered value of the entry `name` of the mapping the path returns (dict display, or stores into the returned mapping)."""
+    """Rendered value of the entry `name` of the mapping the path returns (stores into the returned mapping, else its dict display)."""
     if s.ret is None or s.raised is not None:
         return None
     rt = render(s.ret)
+    val = None
+    for path, vt, line, v in s.stores:
+        if path in ("%s['%s']" % (rt, name), '%s["%s"]' % (rt, name)):
+            val = vt
+    if val is not None:
+        return val
     node = T.parse_term(rt)
     if isinstance(node, ast.Dict):
         for k, v in zip(node.keys, node.values):
             if isinstance(k, ast.Constant) and k.value == name:
                 return T.show(v)
-        return None
-    val = None
-    for path, vt, line, v in s.stores:
-        if path in ("%s['%s']" % (rt, name), '%s["%s"]' % (rt, name)):
-            val = vt
-    return val
+    return None
 
 
 def _pattern_separator(pat, flags):
